@@ -15,6 +15,10 @@ Domain : configuration (Colang 1.0 / 2.x, 1-4 input rails drawn in order from th
          x (Colang 2.x) one or two more flows, in interaction loops of their own, that wait for the user utterance next to
          the main-loop dialog flow (any utterance / one text; then LLM call, generated value, dialog action or fixed message);
          optionally the main-loop flow is the one that waits for one text only.
+         x (Colang 2.x) the waiting form of every flow that hears the user: nothing (`user said something`), a literal
+         (`user said "text"`) or a PATTERN (`user said (regex("..."))` / `$p = regex("...")` + `user said $p`; prefix
+         case-insensitive / whole text anchored / any text with the marker(s) of its turn(s)); optionally NO flow waits for
+         just anything and the turns are dealt out to the flows.
          x (Colang 2.x) one call of the conversation hands over TWO different user messages (generate(messages=[a, b]) or two
          UtteranceUserActionFinished events in one process_events call of the state API): one event-processing cycle.
          x concurrent leg: 2-3 conversations served at the same time by ONE LLMRails instance (asyncio tasks on a virtual-time
@@ -36,6 +40,7 @@ from vf.core import Violation, ok
 from vf.fakes import GENERATION_TASKS, block_message, refusal_text
 
 PID = "C01"
+BS = chr(92)  # backslash
 LEVEL = "exploration"
 CASE_TIMEOUT = 60
 WALL = {"quick": 170, "thorough": 1500}
@@ -61,6 +66,12 @@ RULE = (
     "(PassthroughLLMAction), generate a value (`...`), run a dialog action or say a fixed text; in a third of those with an any-utterance listener the main-loop dialog flow "
     "waits for one text only. For a turn heard by k >= 2 flows the rail trace must be a merge of complete copies of the reference chain (each waiting flow hands the message to the rails), "
     "the first dialog/generation step of any flow comes after one complete accepting pass, and on a reject no flow makes an LLM call / runs a dialog action and the reply holds nothing but the refusal (at most once per pass) / the rail exception. "
+    "The WAITING FORM is a dimension of these Colang 2.x conversations: a flow (listener or main-loop flow) that does not wait for just anything (1 listener in 2, the main-loop flow in a third of the configurations with an any-utterance listener) waits for the literal text of one turn (1 in 5) "
+    "or with a PATTERN that the text of one turn matches (4 in 5; documented semantics: re.search) - `(?i)^<first two words, lower case>.*` / `^<whole text>$` (the turn then sends marker + plain words) or `(?s).*<marker>.*` (2 in 5: the hostile text of the turn stays) - "
+    "spelled `user said (regex(\"...\"))` or `$vf_pat = regex(\"...\")` + `user said $vf_pat` (`user said regex(...)` without parentheses never matches on the unchanged tree: not generated); in a third of the listener configurations without a two-message call NO flow waits for just anything: "
+    "the turns are dealt out to the flows (main-loop flow, listeners), each waits for its share (one turn: any specific form; several: `(?s).*(UM0Z|UM2Z).*`; none: a pattern nothing matches), so every message is heard by exactly ONE flow, through a pattern or a literal (no exact `$name` texts there: nobody would hear them); "
+    "a third of the flows that take the expected text of a two-message call wait for it with a pattern. Who hears a text is computed from the forms (labels listener-awaits= / main-loop-flow-awaits= any-utterance|one-text|regex-paren|regex-var, turn-heard-through-regex-*, turn-heard-through-a-pattern:accepted|rejected, no-flow-awaits-any-utterance); "
+    "the oracle is the unchanged reference chain, and for every Colang 2.x turn each rail action must be given the user message ITSELF: a str equal to the text the caller sent (rails are check-only there), also in the global $user_message it runs under. "
     "Two in five of the Colang 2.x conversations hand over TWO different user messages in the call of one drawn turn - the turn text and an expected text `UB{t}Z <words>` that the first listener "
     "(or the main-loop flow) waits for, expected text second (3 in 4) or first - through generate / generate_async(messages=[a, b]) or (2 in 4) the state API (all calls of the conversation through "
     "LLMRails.process_events_async, both UtteranceUserActionFinished events in ONE call, the harness answering StartUtteranceBotAction): one event-processing cycle. Such configurations use hand-written "
@@ -72,13 +83,14 @@ RULE = (
     "every rail action really waits (await asyncio.sleep on the virtual clock, latency drawn per invocation from 0-50 ms: a cycled list of 1-5) and so does every LLM call (0-30 ms, list of 1-3), so that while conversation A waits inside a "
     "rail action conversation B starts and runs its rails. The conversations carry disjoint turn numbers, hence disjoint markers; each is judged on its own with the unchanged reference model (every rail sees ITS text, its verdicts apply to it only: "
     "a rejected one gets its refusal and no LLM call, an accepted one its prompts with its own text). LLM parameters are not looked at (C15). "
-    "Enumerated families: every reference name x four v1 and three v2 configurations; input-off spelling x later options x position of the input-off call; "
+    "Enumerated families: (first, so that a cut wall budget keeps it) the waiting form: pattern shape x rail style x refusal/exception x who waits with the pattern (a listener next to a main flow that waits for one literal text: every message heard by one flow / the main flow next to an any-utterance listener / a listener next to the main flow that takes anything), both spellings, "
+    "the matching text accepted, sent again and rejected by the last rail, another turn rejected by the first rail; every reference name x four v1 and three v2 configurations; input-off spelling x later options x position of the input-off call; "
     "every exception event type x two v1 and two v2 configurations with each rail rejecting once; listener action x awaited text x rail style x refusal/exception (one or two listeners, main flow waiting for anything / one text); "
     "concurrent leg: five configurations (v1 general / dialog+exceptions+shipped rail / raw passthrough, v2 hand / config) x five schedules (who waits where while the other one runs its rails) x which conversation is rejected by which rail, 2-3 conversations; "
     "two messages in one call: listener action x six verdict pairs x who waits for what (main flow anything + listener the expected text / main flow the expected text + listener anything / expected text first and a listener per text) x refusal/exception x generate sync/async/state API, with and without an output rail. "
     "Non-trivial = at least 2 input rails and (a reject after an accepting/rewriting rail, or a rewrite followed by a later "
     "rail) in some turn, or a reject in a turn >= 2, or an exact `$name` user text in a turn >= 2, or a judged call after a call that switched the input rails off, "
-    "or a turn heard by flows in >= 2 interaction loops with >= 2 rails or a reject, or a call with two user messages and >= 2 rails or a reject; "
+    "or a turn heard by flows in >= 2 interaction loops with >= 2 rails or a reject, or a turn heard by a flow that waits with a pattern with >= 2 rails or a reject, or a call with two user messages and >= 2 rails or a reject; "
     "concurrent leg: a rail invocation or LLM call of ANOTHER conversation ran between two consecutive steps (rail, rail) or (last rail, first generation call) of a turn's input chain; distinct by the whole case."
 )
 ASSUMPTIONS = [
@@ -92,6 +104,9 @@ ASSUMPTIONS = [
     "a user text / rewrite product that is exactly `$name` is its own marker: presence checks use the literal, and the must-not-appear checks are skipped for a literal that is also a substring of another text of the same conversation or of a predefined user/bot message of the loaded configuration (the library shows those to the LLM as examples; the shipped `bot response untrustworthy` text starts with `$bot_message`)",
     "rail-exception event types are generated with names that end in `Exception` only (the shipped rails' convention and what the documentation shows); which other events a reply may carry is not asserted",
     "Colang 2.x flows in several interaction loops that wait for the same utterance each hand it to the input rails (the library's `user said` does): how OFTEN the chain runs for one message is not asserted (>= 1 complete pass, every pass complete and in order), nor in which order the flows' replies appear; a turn nobody in the main loop waits for is judged like any other turn",
+    "a flow that waits with a pattern hears the texts Python's re.search finds the pattern in (docs/colang_2/language_reference/event-generation-and-matching.rst); the generated patterns are anchored or wrapped in `.*` so that match / search / fullmatch agree on every generated text, carry no quotes, backslashes or braces, and name the marker(s) of the turn(s) they are meant for, so a pattern matches exactly one of the two messages of a two-message call",
+    "Colang 2.x rails are check-only (see above), so the text a rail action is given must EQUAL the user message (type str), and so must the global $user_message it runs under, whatever the flow that heard the message waits with; for the shipped `self check input` (driven through its prompt) only containment is asserted",
+    "every generated message is heard by at least one flow (some flow waits for any utterance, or the turns are dealt out to the waiting flows): what the library does with a message NO flow waits for is not C01's subject",
     "listeners are not combined with the library's `llm continuation` (its handling of utterances no main-loop flow waits for is C11's subject)",
     "several generate_async calls may be in flight on one LLMRails instance (the server works that way); the conversations served at the same time carry different texts; the fake rail actions wait on the event loop's (virtual) clock after they recorded what they were given; which LLM parameters overlapping calls see is C15's subject (two open findings) and is not looked at here",
     "two user messages in one call (Colang 2.x): a flow that waits for any utterance takes the FIRST message of the call; for the second one only flows that wait for exactly its text are required to hear it (a message no flow hears gets no rails and reaches nothing: counted, label second-heard-by-no-flow). The reply of such a call is the list of all bot utterances: only the presence of the refusal / rail exception of a rejected message is asserted, and that nothing else is in it when every message was rejected",
@@ -145,6 +160,57 @@ LISTEN_TEXTS = ["hi there", "what can you do", "tell me more"]
 NLD_TAG = "VF-NLD"
 
 
+# The waiting form of a flow ("on" of a listener / cfg["main_on"]): "any" (`user said something`), {"text": literal}
+# (`user said "<literal>"`) or {"regex": pattern, "form": f} - the flow waits with a PATTERN (docs, event-generation-and-matching:
+# a regex() parameter value matches like Python's re.search): form "paren" `user said (regex("<pattern>"))`,
+# form "var" `$vf_pat = regex("<pattern>")` + `user said $vf_pat`.  (`user said regex("...")` without the parentheses is
+# not a spelling the unchanged tree accepts - such a flow never hears anything - and is not generated.)
+REGEX_FORMS = ["paren", "var"]
+# how the pattern is made of the text of the turn it is meant for: prefix (case-insensitive, text = marker + plain words),
+# the whole text anchored (plain words), any text that contains the marker of the turn (the hostile text of the turn stays)
+REGEX_SHAPES = ["prefix-ci", "exact", "contains"]
+
+
+def mk_pattern(shape, t, text=None, marker=None):
+    """Pattern (no quotes, no backslashes, no braces: it is pasted into a Colang string literal) for the text of turn t.
+    match / search / fullmatch agree on every text the generator produces, so the reference does not depend on which of
+    them the implementation uses (the documentation says search)."""
+    marker = marker or fakes.mk_user(t)
+    if shape == "contains":
+        return f"(?s).*{marker}.*"
+    if shape == "prefix-ci":
+        return "(?i)^" + " ".join(text.lower().split(" ")[:2]) + ".*"
+    if shape == "exact":
+        return f"^{text}$"
+    raise ValueError(shape)
+
+
+def hears(on, text):
+    """Does a flow with this waiting form hear the user text?"""
+    if on == "any":
+        return True
+    if "regex" in on:
+        return re.search(on["regex"], text) is not None
+    return on["text"] == text
+
+
+def on_label(on):
+    return "any-utterance" if on == "any" else "regex-" + on.get("form", "paren") if "regex" in on else "one-text"
+
+
+def _wait_lines(on, suffix=""):
+    """The statement(s) a flow waits for the user with."""
+    if on == "any":
+        return [f"  user said something{suffix}"]
+    if "regex" in on:
+        if '"' in on["regex"] or BS in on["regex"]:
+            raise ValueError(on)
+        if on.get("form", "paren") == "var":
+            return [f'  $vf_pat = regex("{on["regex"]}")', f"  user said $vf_pat{suffix}"]
+        return [f'  user said (regex("{on["regex"]}")){suffix}']
+    return [f'  user said "{on["text"]}"{suffix}']
+
+
 def mk_listen(j):
     return f"LISTEN{j}Z"
 
@@ -159,7 +225,7 @@ T0_STEP = 3  # concurrent leg: conversation i uses the turn numbers 3i, 3i+1 (it
 
 def _listener_flow(j, spec):
     lines = [f'@loop("{spec["loop"]}")', f"flow vf listener l{j}", "  global $user_message"]
-    lines.append("  user said something" if spec["on"] == "any" else f'  user said "{spec["on"]["text"]}"')
+    lines += _wait_lines(spec["on"])
     if spec["do"] == "llm":
         lines += ["  $text = await PassthroughLLMAction(user_message=$user_message)", "  bot say $text"]
     elif spec["do"] == "gen":
@@ -193,17 +259,17 @@ def _ext_build(cfg, co, y):
         co = co.replace(head, head + "".join(f"  activate vf listener l{j}\n" for j in range(len(listeners))))
         co += "\n" + "\n".join(_listener_flow(j, spec) for j, spec in enumerate(listeners))
     if cfg.get("main_on"):
-        # the main-loop dialog flow waits for one text only; an any-utterance listener (another loop) hears every message
+        # the main-loop dialog flow waits for one text / with a pattern; the listeners (other loops) hear the other messages
         head = "flow vf turn\n  global $user_message\n  user said something\n"
-        if co.count(head) != 1 or not any(l["on"] == "any" for l in listeners):
-            raise RuntimeError("c01 extension: main_on needs the generated `flow vf turn` and a listener that waits for any utterance")
-        co = co.replace(head, f'flow vf turn\n  global $user_message\n  user said "{cfg["main_on"]["text"]}"\n')
+        if co.count(head) != 1 or not listeners:
+            raise RuntimeError("c01 extension: main_on needs the generated `flow vf turn` and a listener (the generator sees to it that some flow hears every message)")
+        co = co.replace(head, "flow vf turn\n  global $user_message\n" + "\n".join(_wait_lines(cfg["main_on"])) + "\n")
     if cfg.get("own"):
         # every flow that waits for an utterance passes on the transcript IT matched (the library's passthrough.co does the
         # same: `$user_message = $event.final_transcript`), not the global `$user_message`, which holds the newest utterance
         if cfg["v"] != 2 or cfg.get("dialog") == "llmc":
             raise RuntimeError("c01 extension: own-transcript flows are generated for the Colang 2.x `flow vf turn` / listeners")
-        co, n = re.subn(r'(?m)^  (user said (?:something|"[^"\n]*"))$', r"  \1 as $said", co)
+        co, n = re.subn(r'(?m)^  (user said (?:something|"[^"\n]*"|\(regex\("[^"\n]*"\)\)|\$vf_pat))$', r"  \1 as $said", co)
         old = "flow vf llm reply\n  global $user_message\n  $text = await PassthroughLLMAction(user_message=$user_message)\n"
         if n != 1 + len(listeners) or co.count(old) != 1:
             raise RuntimeError("c01 extension: own-transcript flows need the generated `flow vf turn` / `flow vf llm reply`")
@@ -256,7 +322,7 @@ def waiting(cfg, spec):
     """Interaction loops of the flows whose `user said ...` matches the user text of this turn: the dialog flow `vf turn`
     (loop "main"; it waits for any utterance unless cfg["main_on"] names one text) and the listeners."""
     on = [("main", cfg.get("main_on") or "any")] + [(l["loop"], l["on"]) for l in cfg.get("listeners") or []]
-    return [loop for loop, w in on if w == "any" or w["text"] == spec["user"]]
+    return [loop for loop, w in on if hears(w, spec["user"])]
 
 
 def exc_type(cfg, i):
@@ -361,24 +427,54 @@ def _case(draw):
     burst_text = f"{mk_burst(burst_t)} {draw(st.sampled_from(LISTEN_TEXTS))}" if burst else None
     if v == 2 and cfg["dialog"] != "llmc" and (burst or draw(st.sampled_from([False, True, True]))):
         listeners = []
+
+        def specific(s_t=None):
+            # dimension: the waiting form of a flow that does not wait for just anything - the literal text of one turn
+            # (1 in 5) or a PATTERN that the text of one turn matches (4 in 5: prefix, case-insensitive / whole text
+            # anchored / any text with the marker of that turn - then the hostile text of the turn stays), in either spelling
+            s_t = draw(st.integers(0, n_turns - 1)) if s_t is None else s_t
+            shape = draw(st.sampled_from(["literal"] + REGEX_SHAPES + REGEX_SHAPES[-1:]))
+            if shape != "contains":
+                said.setdefault(s_t, f"{fakes.mk_user(s_t)} {draw(st.sampled_from(LISTEN_TEXTS))}")
+            if shape == "literal":
+                return {"text": said[s_t]}
+            return {"regex": mk_pattern(shape, s_t, said.get(s_t)), "form": draw(st.sampled_from(REGEX_FORMS))}
+
         for j in range(draw(st.sampled_from([1, 1, 2]))):
             on = "any"
             if burst and j == 0:
                 on = {"text": burst_text}  # the flow that is free to take the second message of the call
-            elif draw(st.sampled_from([False, False, True])):
-                s_t = draw(st.integers(0, n_turns - 1))
-                said.setdefault(s_t, f"{fakes.mk_user(s_t)} {draw(st.sampled_from(LISTEN_TEXTS))}")
-                on = {"text": said[s_t]}
+                if draw(st.sampled_from([False, False, True])):
+                    # ... waiting for it with a pattern (that only the expected text matches: its marker)
+                    on = {"regex": mk_pattern(draw(st.sampled_from(REGEX_SHAPES)), burst_t, burst_text, marker=mk_burst(burst_t)), "form": draw(st.sampled_from(REGEX_FORMS))}
+            elif draw(st.sampled_from([False, False, True, True])):
+                on = specific()
             listeners.append({"loop": draw(st.sampled_from(LOOPS)) if j else LOOPS[0], "on": on, "do": draw(st.sampled_from(LISTEN_DO))})
         cfg["listeners"] = listeners
         cfg["ext"] = "c01"
         if any(l["on"] == "any" for l in listeners) and draw(st.sampled_from([False, False, True])):
-            # ... and it is the main-loop flow that waits for one text only
-            s_t = draw(st.integers(0, n_turns - 1))
-            said.setdefault(s_t, f"{fakes.mk_user(s_t)} {draw(st.sampled_from(LISTEN_TEXTS))}")
-            cfg["main_on"] = {"text": said[s_t]}
+            # ... and it is the main-loop flow that waits for one text only / with a pattern
+            cfg["main_on"] = specific()
+    shared = False
+    if cfg.get("listeners") and not burst and draw(st.sampled_from([False, False, True])):
+        # ... or NO flow waits for just anything: the turns are dealt out to the flows (main-loop flow, listeners), each flow
+        # waits for the turns of its share - one turn: any specific form; several: a pattern with their markers as
+        # alternatives; none: a pattern no text matches -, so every message is heard by exactly one flow
+        shared = True
+        owner = [draw(st.integers(0, len(cfg["listeners"]))) for _ in range(n_turns)]
+        for f in range(1 + len(cfg["listeners"])):
+            ts = [t for t in range(n_turns) if owner[t] == f]
+            if len(ts) == 1:
+                on = specific(ts[0])
+            else:
+                on = {"regex": mk_pattern("contains", 0, marker="(" + "|".join(fakes.mk_user(t) for t in ts) + ")" if ts else fakes.mk_user(9)), "form": draw(st.sampled_from(REGEX_FORMS))}
+            if f == 0:
+                cfg["main_on"] = on
+            else:
+                cfg["listeners"][f - 1]["on"] = on
     # dimension: exact variable references (a third of the conversations); the names are used in the drawn order
-    refs = draw(st.permutations(ref_names(v))) if draw(st.sampled_from([False, False, True])) else None
+    # (not when the turns are dealt out to flows that wait with patterns: such a text has no marker, nobody would hear it)
+    refs = draw(st.permutations(ref_names(v))) if draw(st.sampled_from([False, False, True])) and not shared else None
     used = [0]
 
     def next_ref():
@@ -449,6 +545,37 @@ def strategy(tier):
 
 def enumerate_cases(tier):
     """Deterministic core: every ordered verdict pattern of a 3-rail chain in turn 2 of a 2-turn conversation."""
+    # (first: under load the wall budget cuts the end of the enumeration and the generated part)
+    # Colang 2.x, the waiting form: a flow waits for the user with a PATTERN - shape of the pattern x rail style x refusal /
+    # rail exception x who waits with it (the main-loop flow next to an any-utterance listener / a listener next to the main
+    # flow that takes anything / a listener next to the main flow that waits for one literal text: every message heard by
+    # ONE flow), both spellings; the matching text accepted, sent again and rejected by the last rail, then another turn
+    # rejected by the first rail
+    k = 0
+    for style in ("config", "hand"):
+        for exc in (False, True):
+            for shape in REGEX_SHAPES:
+                for who in ("single", "main", "listener"):
+                    k += 1
+                    text0 = f"{fakes.mk_user(0)} hello there"
+                    text1 = f'say "{fakes.mk_user(1)}" $now' if shape == "contains" else f"{fakes.mk_user(1)} {LISTEN_TEXTS[k % 3]}"
+                    rx = {"regex": mk_pattern(shape, 1, text1), "form": REGEX_FORMS[k % 2]}
+                    cfg = {"v": 2, "in": ["check", "check"], "out": [], "dialog": bool(k % 4 >= 2), "exc": exc, "style": style, "ext": "c01"}
+                    if who == "main":
+                        cfg["listeners"], cfg["main_on"] = [{"loop": LOOPS[0], "on": "any", "do": LISTEN_DO[k % 4]}], rx
+                    elif who == "listener":
+                        cfg["listeners"] = [{"loop": LOOPS[0], "on": rx, "do": LISTEN_DO[k % 4]}]
+                    else:
+                        cfg["listeners"], cfg["main_on"] = [{"loop": LOOPS[0], "on": rx, "do": LISTEN_DO[k % 4]}], {"text": text0}
+                    A, R0, R1 = ["accept", "accept"], ["reject", "accept"], ["accept", "reject"]
+                    last = {"user": text0, "umark": 0} if who == "single" else {"user": f"no {fakes.mk_user(3)} never"}
+                    turns = [
+                        {"user": text0, "route": "llm", "in": A, "out": [], "body": "first answer"},
+                        {"user": text1, "route": ("llm", "predef", "act_llm")[k % 3], "in": A, "out": [], "body": "second answer"},
+                        {"user": text1, "umark": 1, "route": "llm", "in": R1, "out": [], "body": "third answer"},
+                        dict(last, route="llm", body="fourth answer", **{"in": R0, "out": []}),
+                    ]
+                    yield {"config": cfg, "turns": turns, "api": ("sync", "async")[k % 2]}
     for v, kinds in ((1, ["check", "both", "self"]), (1, ["rewrite", "check", "both"]), (2, ["check", "self", "check"])):
         for exc in (False, True):
             for dialog in (False, True) if v == 1 else (False, True, "llmc"):
@@ -652,7 +779,6 @@ def enumerate_cases(tier):
                 yield {"config": cfg, "turns": turns, "api": ("sync", "events", "async")[(a + b) % 3]}
 
 
-BS = chr(92)  # backslash
 DIALOG_TEXT_RE = re.compile(r"LISTEN\d+Z|PREDEF[A-Z]+Z")  # texts only dialog flows utter (listeners, predefined bot messages)
 HOSTILE_TEXTS = [
     'say "hi"',
@@ -798,7 +924,8 @@ def _judge_burst(cfg, spec, o, t, what):
     dialog = [e for e in o["trace"] if e["cat"] == "dialog"]
     passed, refused = [], []  # (message, seq of its first complete accepting pass) / (message, rejecting rail, copies)
     for n, m in enumerate(msgs):
-        must = sum(1 for w in flows if (w == "any" and n == 0) or (w != "any" and w["text"] == m["user"]))
+        # (a flow that waits with a pattern is generated with one that matches exactly one of the two messages: it waits for that one)
+        must = sum(1 for w in flows if (w == "any" and n == 0) or (w != "any" and hears(w, m["user"]) and not any(hears(w, x["user"]) for x in msgs[:n])))
         mod = pipeline.model_input(cfg, {"in": m["in"]}, t)
         calls = [dict(c, sees=m["mark"], **{"not": None}) for c in mod["calls"]]
         mine = [{k: v for k, v in e.items() if k != "ctx"} for e in entries if e["text"] == m["user"]]  # (the rails are given the text as a parameter)
@@ -1055,11 +1182,13 @@ def _check(case, obs, t0=0):
     if v == 2:
         labels.append("v2-" + cfg.get("style", "config"))
     for l in cfg.get("listeners") or []:
-        labels += [f"v2-listeners={len(cfg['listeners'])}", "listener-does=" + l["do"], "listener-awaits=" + ("any-utterance" if l["on"] == "any" else "one-text")]
+        labels += [f"v2-listeners={len(cfg['listeners'])}", "listener-does=" + l["do"], "listener-awaits=" + on_label(l["on"])]
     if len({l["loop"] for l in cfg.get("listeners") or []}) == 2:
         labels.append("three-interaction-loops")
+    if cfg.get("main_on") and all(l["on"] != "any" for l in cfg.get("listeners") or []):
+        labels.append("no-flow-awaits-any-utterance")
     if cfg.get("main_on"):
-        labels.append("main-loop-flow-awaits=one-text")
+        labels.append("main-loop-flow-awaits=" + on_label(cfg["main_on"]))
     if cfg.get("in_exc"):
         labels.append("exception-types=" + ("mixed" if len({exc_type(cfg, i) for i, k in enumerate(cfg["in"]) if k != "rewrite"}) > 1 else "one"))
     if "self" in cfg["in"]:
@@ -1121,6 +1250,16 @@ def _check(case, obs, t0=0):
             prob = pipeline.chain_problem(m["calls"], entries, what)
         if prob:
             raise Violation("input-rail-chain", prob, {"turn": t, "v": v, "no_rail_ran": not entries, "dead_after_backslash_turn": dead_after})
+        if v == 2:
+            # Colang 2.x rails are check-only: what a rail action is given IS the user message - its transcript, a str equal to
+            # the text the caller sent - whatever the flow that heard it waits with (a literal, a pattern, nothing)
+            for e in entries:
+                if e.get("via") == "action" and (not isinstance(e["text"], str) or e["text"] != spec["user"] or (e.get("ctx") is not None and e["ctx"] != spec["user"])):
+                    raise Violation("input-rail-chain", f"{what}: {e['rail']} was given {str(e['text'])[:80]!r} ({type(e['text']).__name__}; global $user_message {str(e.get('ctx'))[:80]!r}), it must be given the user message {spec['user'][:80]!r} itself", {"turn": t, "v": v})
+            through = sorted({on_label(w) for w in [cfg.get("main_on") or "any"] + [l["on"] for l in cfg.get("listeners") or []] if w != "any" and "regex" in w and hears(w, spec["user"])})
+            if through:
+                labels += ["turn-heard-through-" + x for x in through] + ["turn-heard-through-a-pattern:" + ("rejected" if m["blocked"] is not None else "accepted")]
+                nt = nt or len(cfg["in"]) >= 2 or m["blocked"] is not None
         by_rail = {c["rail"]: c for c in m["calls"]}
         for c, e in ((by_rail[e["rail"]], e) for e in entries):
             # a text that is exactly `$name` must be handed to the rail as it is (not the value of that variable, not a part of it)
